@@ -32,7 +32,14 @@ impl Engine for Crash {
             Seek::Seconds(_) => "seektable:seconds",
             Seek::Default => "seektable:default",
         });
-        let sw = SharedWriter::new(RecWriter::new());
+        // one case in three writes to a sink that accepts only part of a large write call
+        let dg = crate::util::digest(c) as usize;
+        let mut sink = RecWriter::new();
+        if dg % 3 == 0 {
+            sink.max_write = 1 + (dg >> 8) % 1500;
+            out.label("sink-makes-short-writes");
+        }
+        let sw = SharedWriter::new(sink);
         let total = if c.opts.declare_total { Some(codec::declared_total(&pcm, c.front)) } else { None };
         match guarded(|| codec::encode_full(sw.clone(), &pcm, &c.opts, c.front, &c.chunks, total, &[], 0, false)) {
             Err(p) => {
@@ -50,6 +57,23 @@ impl Engine for Crash {
             Ok(Ok(())) => {}
         }
         let rec = sw.snapshot();
+        if rec.max_write > 0 {
+            // the same (deterministic) encode into a sink that accepts every write in full: whatever
+            // is held back at this moment, the two outputs must agree byte for byte as far as both go
+            let sw_full = SharedWriter::new(RecWriter::new());
+            if let Ok(Ok(())) = guarded(|| codec::encode_full(sw_full.clone(), &pcm, &c.opts, c.front, &c.chunks, total, &[], 0, false)) {
+                let full = sw_full.snapshot();
+                let n = rec.data.len().min(full.data.len());
+                if rec.data[..n] != full.data[..n] {
+                    let at = rec.data.iter().zip(&full.data).position(|(a, b)| a != b);
+                    out.fail(
+                        "short-writes-change-the-stream",
+                        format!("a sink accepting {} bytes per write received different bytes than one accepting everything: first difference at {:?} of {}", rec.max_write, at, n),
+                    );
+                    return out;
+                }
+            }
+        }
         // crash images: while the output is append-only (what the crate does) they are the prefixes
         // of the final byte string; an encoder that also rewrites earlier bytes before finalize is
         // judged on the snapshot after each of its writes instead
@@ -205,9 +229,9 @@ pub fn crash_case_strategy() -> BoxedStrategy<EncCase> {
 }
 
 pub const RULE: &str = "each case encodes generated PCM (C01 space: declared or undeclared total x seek-table policy x padding x extra \
-metadata x front-end x chunking) through a recording writer and stops before finalize (the writer is leaked, never dropped); crash \
+metadata x front-end x chunking) through a recording writer (one in three accepting only 1-1500 bytes per write call) and stops before finalize (the writer is leaked, never dropped); crash \
 images are the prefixes of the output at every write-call boundary and, for outputs up to 2 KiB, at every byte length (exhaustive per \
-case). Oracle: for each prefix (for an encoder that rewrites earlier bytes before finalize: for the snapshot after each write) the decoder \
+case). Oracle: a short-writing sink receives the same bytes as a full-writing one; for each prefix (for an encoder that rewrites earlier bytes before finalize: for the snapshot after each write) the decoder \
 delivers exactly the PCM of the frames the independent frame map says lie wholly inside it, in order, then end-of-data or an error, \
 never more and never a panic; a prefix containing the complete metadata must open. Non-trivial = a prefix ending inside a frame after \
 at least one whole frame. Distinct = digest of the case.";
